@@ -1,25 +1,35 @@
 # configuration of ./check for property C06 (see props_config.py)
-CONFIG = {'gen': [],
+CONFIG = {'gen': ['ConstsC06'],
  'rule': 'cases = per wire type (SMB_STRING x5 formats, OEM_STRING, SMB_DATE, FILETIME, RANGE32/64, SMB_NMPIPE_STATUS, SMB_RESUME_KEY, '
          'SMB_DIRECTORY_INFORMATION, SMB_FILE_ATTRIBUTES, AndX, Parameters, Data, Version): enc = Marshal of a value (bytes + receiver '
          'after the call); rt = Unmarshal(Marshal(v) || suffix) into a fresh receiver (fields, n, len); dec = Unmarshal of raw bytes '
          '(every prefix of valid encodings, corruptions, every format byte, random bytes). Values: string lengths 0..300 (thorough '
          '0..1100) and 4096/65533/65535/65536 in every format, packed dates and pipe-status words on a grid (thorough: all 65536 each), '
          'every WordCount 0..255, data lengths around 255/256/65535, out-of-domain values (embedded NUL, counts out of step, long names); '
-         'buffers have cap == len; distinct = distinct input line; non-trivial = implementation output is a non-empty value Half of the decodes (chosen by the input bytes) go into a receiver that has already decoded other bytes, successfully or not.',
+         'buffers have cap == len; distinct = distinct input line; non-trivial = implementation output is a non-empty value Half of the '
+         'decodes (chosen by the input bytes) go into a receiver that has already decoded other bytes, successfully or not.',
  'assumptions': ['encoding/binary Put/Uint16/32, append, copy and slice-bounds checks behave as modelled',
                  'Unmarshal is run on a fresh receiver (every decoder overwrites all fields on success)',
                  'integer endianness is taken from the code (SMB_FILE_ATTRIBUTES, AndXOffset, parameter words big-endian): conformance is '
                  'C05'],
  'trusted': [],
  'technique': 'Lean 4 proof (list induction, bit-extensionality for the packed words) about hand models of the 14 Marshal/Unmarshal pairs; '
-              'models tied to the Go code by differential correspondence; round-trip oracle on the same inputs',
+              'models tied to the Go code by differential correspondence; round-trip oracle on the same inputs; constants regenerated from '
+              'the source on every run by a go/ast fact extractor (Gen/ConstsC06: SMB_DATE base year 1980, shifts 9/5 and masks, '
+              'SMB_STRING format codes 1..5 with the offsets 1/3 and extras of each Unmarshal case and the append order of each Marshal '
+              'case, resume key 21 = 1+16+4, directory information windows 2/4/14 and the 12-byte name padding, RANGE32 and FILETIME '
+              'offsets, byte orders) and proved equal to the ones the model uses by rfl/decide (21 theorems consts_match_model_*)',
  'level_text': 'For each of the 14 wire types the theorem <Type>.rt is proved in Lean for all values of an explicit decidable domain and '
                'all trailing suffixes: Marshal succeeds, emits wireSize bytes, and Unmarshal(bytes ++ suffix) returns the same field '
                'values and exactly wireSize (SMB_RESUME_KEY / SMB_DIRECTORY_INFORMATION also from any receiver state, modulo the space '
                'padding Marshal applies: rt_norm). smb_date_all_words and pipe_status_all_words cover all 65536 words by '
                'bit-extensionality. SMB_NMPIPE_STATUS is proved only for the empty suffix (rt_partial) with the negation at a witness '
                '(finding nmpipe_trailing: the suite pins the len != 2 test). The models are of the code with fixes/C06-*.diff applied and '
-               'are tied to it by running both on the same generated inputs on every run.',
+               'are tied to it by running both on the same generated inputs on every run. Constants tie: 21 theorems consts_match_model_* '
+               'restate the model functions with the numbers regenerated from the current source (SMB_DATE base year 1980, shifts 9/5 and '
+               'masks, SMB_STRING format codes 1..5 with the offsets 1/3 and extras of each Unmarshal case and the append order of each '
+               'Marshal case, resume key 21 = 1+16+4, directory information windows 2/4/14 and the 12-byte name padding, RANGE32 and '
+               'FILETIME offsets, byte orders) in place of their literals; a changed constant in the source makes the theorem named after '
+               'the function fail.',
  'level_note': 'Trusted: Lean kernel; axioms propext, Classical.choice, Quot.sound; the hand models are tied to the Go code only by '
                'differential testing (bounded); encoding/binary and slice semantics as modelled. Wire endianness is not judged here (C05).'}
